@@ -7,6 +7,8 @@ import (
 	"math/rand"
 	"strconv"
 	"strings"
+	"sync"
+	"sync/atomic"
 )
 
 func init() {
@@ -33,6 +35,10 @@ func VerifConform(args []string) {
 	opts := ""
 	if len(args) > 1 {
 		opts = args[1]
+	}
+	if src == "#sync" {
+		vfConformSync()
+		return
 	}
 	vals := vfConformVars()
 	conf := NewConfig(RegVarAndOp(vals))
@@ -141,4 +147,62 @@ func VerifConformGen(args []string) {
 	r, rerr := e.Eval(NewCtxFromVars(conf, vals))
 	vfObserve("eval", fmt.Sprint(r))
 	vfObserve("eval-err-nil", rerr == nil)
+}
+
+// vfConformSync: the sync primitives a cache or pool inside the library would use, executed
+// from their real source on the executor's model of sync/atomic.
+func vfConformSync() {
+	var m sync.Map
+	_, ok := m.Load("a")
+	vfObserve("load-empty", ok)
+	m.Store("a", 1)
+	m.Store("b", "x")
+	v, ok := m.Load("a")
+	vfObserve("load-a", fmt.Sprint(v, ok))
+	v, ok = m.Load("b")
+	vfObserve("load-b", fmt.Sprint(v, ok))
+	v, ok = m.Load("c")
+	vfObserve("load-c", fmt.Sprint(v, ok))
+	v, loaded := m.LoadOrStore("a", 5)
+	vfObserve("loadorstore-a", fmt.Sprint(v, loaded))
+	v, loaded = m.LoadOrStore("d", 7)
+	vfObserve("loadorstore-d", fmt.Sprint(v, loaded))
+	m.Store("a", 2)
+	v, ok = m.Load("a")
+	vfObserve("load-a2", fmt.Sprint(v, ok))
+	m.Delete("a")
+	_, ok = m.Load("a")
+	vfObserve("load-deleted", ok)
+	n := 0
+	m.Range(func(k, v any) bool { n++; return true })
+	vfObserve("range", n)
+	var mu sync.Mutex
+	mu.Lock()
+	mu.Unlock()
+	mu.Lock()
+	vfObserve("trylock-held", mu.TryLock())
+	mu.Unlock()
+	vfObserve("trylock-free", mu.TryLock())
+	var once sync.Once
+	c := 0
+	once.Do(func() { c++ })
+	once.Do(func() { c++ })
+	vfObserve("once", c)
+	var cnt atomic.Int64
+	cnt.Add(3)
+	vfObserve("cas", cnt.CompareAndSwap(3, 10))
+	vfObserve("cas-miss", cnt.CompareAndSwap(3, 11))
+	vfObserve("cnt", cnt.Load())
+	var rw sync.RWMutex
+	rw.RLock()
+	rw.RUnlock()
+	rw.Lock()
+	rw.Unlock()
+	var flag atomic.Bool
+	flag.Store(true)
+	vfObserve("flag", flag.Load())
+	var ap atomic.Pointer[int]
+	x := 5
+	ap.Store(&x)
+	vfObserve("aptr", *ap.Load())
 }
